@@ -34,6 +34,7 @@ Record fam : Type := mkfam {
   f_const : list N -> list item;            (* m_writer.write(s_xxxString, s_xxxStringLength) *)
   f_str : list N -> list item;              (* m_writer.write(const XalanDOMString&) *)
   f_name : list N -> list item;             (* m_writer.writeNameChar *)
+  f_comment : list N -> list item;          (* m_writer.writeCommentChars / writePIChars (identical) *)
   f_at : N -> list N -> list item * bool;   (* m_writer.write(chars, start, length) *)
   f_cdata_char : N -> list N -> bool -> list item * bool * bool;   (* m_writer.writeCDATAChar *)
   f_newline : list item                     (* m_writer.outputNewline() *)
@@ -43,18 +44,19 @@ Definition s_cdata_open : list N := [60; 33; 91; 67; 68; 65; 84; 65; 91].   (* <
 Definition s_cdata_close : list N := [93; 93; 62].                          (* ]]> *)
 
 Definition fam_utf8 : fam :=
-  mkfam kbuf_utf8 u8_unit u8_block u8_str u8_str u8_at
-        (fun c r o => let '(its, skip) := u8_at c r in (its, skip, o))
+  mkfam kbuf_utf8 u8_unit u8_block u8_str u8_str u8_str u8_at
+        (fun c r o => let '(its, skip) := u8_at c r in
+                      ((if o then u8_block s_cdata_open else []) ++ its, skip, false))
         (u8_str [10]).
 
 Definition fam_utf16 : fam :=
-  mkfam kbuf_utf16 u16_unit u16_block u16_block u16_block
-        (fun c _ => (u16_unit c, false))
-        (fun c _ o => (u16_unit c, false, o))
+  mkfam kbuf_utf16 u16_unit u16_block u16_block u16_block u16_chars u16_at
+        (fun c r o => let '(its, skip) := u16_at c r in
+                      ((if o then u16_block s_cdata_open else []) ++ its, skip, false))
         (u16_block [10]).
 
 Definition fam_other (rep : N -> bool) : fam :=
-  mkfam kbuf_other (o_unit rep) (o_str rep) (o_str rep) (o_name rep) (o_at rep)
+  mkfam kbuf_other (o_unit rep) (o_str rep) (o_str rep) (o_name rep) (o_name rep) (o_at rep)
         (o_cdata_char rep s_cdata_open s_cdata_close)
         (o_str rep [10]).
 
@@ -112,11 +114,17 @@ Section Formatter.
     else if negb (p_attribute v11 c) then (f_unit F c, false)
     else (default_attr_escape c, false).
 
-  (* writeNormalizedChar (comments and PI data) *)
-  Definition normalized_step (c : N) (r : list N) : list item * bool :=
-    if c =? 10 then (f_newline F, false)
-    else if p_crforbidden v11 c then ([IThrow err_forbidden], false)
-    else f_at F c r.
+  (* writeNormalizedData (comments and PI data): the runs between line feeds go to
+     writeCommentChars / writePIChars, which throw for what the encoding cannot represent; a
+     character that may only be written as a reference is an error here *)
+  Fixpoint normalized_loop (l run_rev : list N) : list item :=
+    match l with
+    | [] => f_comment F (rev run_rev)
+    | c :: r =>
+        if c =? 10 then f_comment F (rev run_rev) ++ f_newline F ++ normalized_loop r []
+        else if p_crforbidden v11 c then [IThrow err_forbidden]
+        else normalized_loop r (c :: run_rev)
+    end.
 
   Fixpoint char_loop (step : N -> list N -> list item * bool) (l : list N) : list item :=
     match l with
@@ -129,7 +137,7 @@ Section Formatter.
 
   Definition write_content (s : list N) : list item := char_loop content_step s.
   Definition write_attr_string (s : list N) : list item := char_loop attr_step s.
-  Definition write_normalized_data (s : list N) : list item := char_loop normalized_step s.
+  Definition write_normalized_data (s : list N) : list item := normalized_loop s [].
 
   Definition longer_than (k : N) (l : list N) : bool :=
     match skipn (N.to_nat k) l with [] => false | _ => true end.
@@ -141,7 +149,11 @@ Section Formatter.
     | c :: r =>
         let plain (_ : unit) :=
           if c =? 10 then let '(its, o) := cdata_loop r outside in (f_newline F ++ its, o)
-          else if p_crforbidden v11 c then ([IThrow err_forbidden], outside)
+          else if p_forbidden v11 c then ([IThrow err_forbidden], outside)
+          else if (c =? 13) || (v11 && ((c =? 133) || (c =? 8232) || p_crforbidden v11 c)) then
+            (* leave the section and write a character reference *)
+            let '(its, o) := cdata_loop r true in
+            ((if outside then [] else f_const F s_cdata_close) ++ ncr c ++ its, o)
           else
             let '(its, skip, o1) := f_cdata_char F c r outside in
             let '(its2, o2) :=
